@@ -52,11 +52,12 @@ ASSUMPTIONS = [
 ]
 BOUND = {
     "quick": ("rows 1..3; one column: 9 families (bool,int,float,str,date,datetime[us],datetime[s],datetime[ms],datetime[ns]) over NA + 3 values "
-              "(bool 2); two columns: all 36 ordered family pairs of bool/int/float/str/date/datetime[us] over NA + 3 values (bool 2); "
-              "every mask; converters lod, json, json_dtypes (temporal frames), pandas, arrow"),
-    "thorough": ("rows 1..4; one column: the 9 families over NA + 5..9 values (incl. inf, -0.0, int64 min, 2**53+1, 50-char / "
+              "(bool 2); two columns: all 36 ordered family pairs of bool/int/float/str/date/datetime[us] over NA + 3 values (bool 2) with "
+              "rows 1..2 and over NA + 2 values with 3 rows; every mask; converters lod, json, json_dtypes (temporal frames), pandas, arrow"),
+    "thorough": ("rows 1..4; one column: the 9 families over NA + 4..9 values (incl. inf, -0.0, int64 min, 2**53+1, 50-char / "
                  "non-ASCII / quote / newline / backslash / 'None' / 'nan' strings, year 1 and 9999 dates); two columns: all 36 ordered "
-                 "family pairs over NA + 3 values (bool 2) with rows 1..3 and over NA + 2 values with 4 rows; every mask; converters lod, json, json_dtypes, pandas, arrow"),
+                 "family pairs over NA + 3 values (bool 2) with rows 1..3 and over NA + 2 values with 4 rows; every mask; "
+                 "converters lod, json, json_dtypes (temporal frames), pandas, arrow"),
 }
 TIME_CAP = {"quick": 240, "thorough": 3000}
 EXPLANATION = ("Every execution runs the real exporter and importer; the reference is the list of Python cells read from the "
@@ -429,32 +430,25 @@ def shards(tier):
                 out.append({"part": "single", "fam": fam, "alpha": single_alpha, "n": n, "first": None})
         for f1 in PAIR_FAMS:
             for f2 in PAIR_FAMS:
-                # rows <= 3: NA + 3 values per column; 4 rows: NA + the first 2 values (81 x 81 frames per pair)
-                out.append({"part": "pair", "f1": f1, "f2": f2, "n": n, "first": None, "k": 3 if n <= 3 else 2})
+                # NA + k values per column. k = 3 up to 2 rows (quick) / 3 rows (thorough), else the first 2 values
+                k = 3 if n <= (2 if tier == "quick" else 3) else 2
+                out.append({"part": "pair", "f1": f1, "f2": f2, "n": n, "first": None, "k": k})
     return out
 
 
 def run_shard(shard, rec):
     n = shard["n"]
-    count = 0
     if shard["part"] == "single":
         fam = shard["fam"]
         alpha = (SMALL if shard["alpha"] == "small" else WIDE)[fam]
-        for toks in columns(fam, alpha, n, shard["first"]):
-            case = {"cols": [["x", fam, toks]]}
-            check_case(case, rec)
-            count += 1
-            if count % 97 == 1:
-                rec.sample(case)
+        cases = [{"cols": [["x", fam, toks]]} for toks in columns(fam, alpha, n, shard["first"])]
     else:
-        f1, f2 = shard["f1"], shard["f2"]
-        k = shard["k"]
+        f1, f2, k = shard["f1"], shard["f2"], shard["k"]
         second = list(columns(f2, SMALL[f2][:k], n))
-        for t1 in columns(f1, SMALL[f1][:k], n, shard["first"]):
-            for t2 in second:
-                # names in non-alphabetical order: a sorted-keys export/import is visible
-                case = {"cols": [["b", f1, t1], ["a", f2, t2]]}
-                check_case(case, rec)
-                count += 1
-                if count % 997 == 1:
-                    rec.sample(case)
+        # names in non-alphabetical order: a sorted-keys export/import is visible
+        cases = ({"cols": [["b", f1, t1], ["a", f2, t2]]}
+                 for t1 in columns(f1, SMALL[f1][:k], n, shard["first"]) for t2 in second)
+    for i, case in enumerate(cases):
+        check_case(case, rec)
+        if i % 61 == 37 or (i == 1 and n == 1):
+            rec.sample(case)
